@@ -11,6 +11,7 @@ import (
 	"context"
 	"encoding/json"
 	"fmt"
+	"net/http/httptest"
 	"runtime"
 	"strconv"
 	"strings"
@@ -47,11 +48,15 @@ type Config struct {
 
 // Op is one element of a history.
 type Op struct {
-	// K: deliver | restart | corpus | query (C08) | page | around | enumasc (C09)
+	// K: deliver | bulk | restart | corpus | query (C08) | page | around | enumasc (C09)
 	K string `json:"k"`
 	// deliver: item I by client C
 	I int `json:"i,omitempty"`
 	C int `json:"c,omitempty"`
+	// bulk: N opaque filler blobs (derived from Seed) are delivered; they are
+	// not part of the world description (queries after it are DiffOnly)
+	N    int    `json:"n,omitempty"`
+	Seed uint64 `json:"seed,omitempty"`
 	// query, page, around
 	Q *Query `json:"q,omitempty"`
 	// around: pivot item + 1; -1: a ref no blob has
@@ -318,6 +323,48 @@ func (x *exec) ask(sq *search.SearchQuery) (a answer) {
 		}
 		a.cont = res.Continue
 	}
+	return a
+}
+
+// askHTTP puts the query to the handler's HTTP entry point (POST
+// camli/search/query, as the web UI and pkg/client do) and decodes the answer.
+func (x *exec) askHTTP(sq *search.SearchQuery) (a answer) {
+	defer func() {
+		if r := recover(); r != nil {
+			a.panicv = r
+		}
+		x.takeSource()
+	}()
+	body, err := json.Marshal(sq)
+	if err != nil {
+		a.err = err
+		return a
+	}
+	req := httptest.NewRequest("POST", "http://perkeep.sim/my-search/camli/search/query", bytes.NewReader(body))
+	req.Header.Set("X-Prefixhandler-Pathbase", "/my-search/")
+	req.Header.Set("X-Prefixhandler-Pathsuffix", "camli/search/query")
+	rec := httptest.NewRecorder()
+	x.h.ServeHTTP(rec, req)
+	var res struct {
+		Blobs []struct {
+			Blob string `json:"blob"`
+		} `json:"blobs"`
+		Continue  string `json:"continue"`
+		Error     string `json:"error"`
+		ErrorType string `json:"errorType"`
+	}
+	if err := json.Unmarshal(rec.Body.Bytes(), &res); err != nil {
+		a.err = fmt.Errorf("HTTP %d, body is not JSON: %v", rec.Code, err)
+		return a
+	}
+	if res.Error != "" || rec.Code != 200 {
+		a.err = fmt.Errorf("HTTP %d: %s", rec.Code, res.Error)
+		return a
+	}
+	for _, b := range res.Blobs {
+		a.refs = append(a.refs, b.Blob)
+	}
+	a.cont = res.Continue
 	return a
 }
 
